@@ -43,7 +43,7 @@ def catalogue(K, thorough=False):
             S.NEST_MID(K, horizon=hg), S.NEST_OUT(K, horizon=hg),
             S.BATCH(K), S.BATCH(K, pattern=(None, 0, 3), size=3, cap=2, sink_cycle=1),
             S.RES(K), S.RES(K, r=2, q=0), S.RES_SER(K), S.MAINT(K), S.MAINT(K, n=1), S.BLOCK(K),
-            S.BUDGET(K), S.REWIRE(K),
+            S.BUDGET(K), S.REWIRE(K), S.REWIRE2(K),
             S.BATCH(K, size=2, cap=3, sink_cycle=2), S.BUFBATCH(K), S.BUFBATCH(K, pattern=(3, 2), cap=4, size=2),
             S.BATCH_DIRECT(K), S.GRPFAN(K), S.RES_SHUT(K), S.BLOCKED_OUT(K), S.FANOUT_DELAY(K), S.BATCHGATE(K),
             S.GRPPAR(K, horizon=hg), S.SCHED_BLOCK(K),
@@ -146,7 +146,7 @@ class C03(Check):
     def jobs(self, tier):
         K = 1 if tier == 'quick' else 2
         specs = catalogue(K, tier != 'quick') + [S.MAINT(K + 1, n=1), S.RES(K + 1, horizon=4), S.BUDGET(K + 1),
-                                                   S.REWIRE(K + 1, horizon=4), S.BLOCK(K + 1, horizon=4)]
+                                                   S.REWIRE(K + 1, horizon=4), S.REWIRE2(K + 1, horizon=4), S.BLOCK(K + 1, horizon=4)]
         # capacity changes / unblocking / budget adjustments made BETWEEN two consecutive runs must wake parts up too
         specs += [S.with_splits(x) for x in (S.RES(K), S.BLOCK(K), S.BUDGET(K))]
         # sinks with stretched / per-part cycle times; devices created while running with a blocked device as upstream
@@ -233,7 +233,7 @@ class C08(Check):
         specs = [S.FAN(K), S.FAN3(2, horizon=8), S.GRPFAN(K), S.GRPPAR(K, horizon=hg), S.SCHED_BLOCK(K), S.RES(K),
                  S.BATCHGATE(K), S.BATCH_DIRECT(K), S.GATE(K), S.GATE_NONE(K), S.GRPBATCH(K), S.GRP_BLOCKED(K),
                  S.FANFAIL(2), S.GRPIN(K), S.REGRADE(K), S.FANGATE(2), S.REENT(K), S.REENT(K, src_cycle=1), S.GRP2(K, horizon=hg),
-                 S.NEST_MID(K, horizon=hg), S.NEST_OUT(K, horizon=hg), S.BLOCK(K), S.BATCH(K), S.REWIRE(K), S.GATEGRP(K),
+                 S.NEST_MID(K, horizon=hg), S.NEST_OUT(K, horizon=hg), S.BLOCK(K), S.BATCH(K), S.REWIRE(K), S.REWIRE2(K + 1), S.GATEGRP(K),
                  S.GRPPASS(K), S.NEST_PASS(K)]
         return _line_jobs(specs, ['route'], tier) + _line_jobs([S.NESTBATCH(K)], ['route', 'nesthistory'], tier) + topo_jobs(['route'], tier)
 
